@@ -30,7 +30,6 @@ package git
 //gvc:  opt coarse
 //gvc:  opt frame args
 //gvc:  modifies sfs.Filesystem.#clock, sfs.Filesystem.#lstatAt, sfs.Filesystem.#symAt
-//gvc:  requires nn: sfs.Filesystem != nil
 //gvc:  let c0 = sfs.Filesystem.#clock
 //gvc:  loop 1 invariant done: forall(a, 0, it1, forall(x, spec_leading(strid(paths[a]), x) ==> sfs.Filesystem.#lstatAt[x] > c0 && !sfs.Filesystem.#symAt[x]))
 //gvc:  loop 1 invariant clock: sfs.Filesystem.#clock >= c0
